@@ -2,7 +2,7 @@
    number, takes the operation list of a case (each operation a list of integers) and
    returns one integer list per operation, in the same canonical form the Go harness
    prints for the implementation. *)
-From Minter Require Import Base Consts Pool Float Orders Govern Persist PersistGen.
+From Minter Require Import Base Consts Pool Float Orders Govern Persist PersistGen Rewards.
 Open Scope Z_scope.
 
 Definition enc1 (z : Z) : list Z := [z].
@@ -172,6 +172,31 @@ Definition appdb_step (s : Persist.st) (op : list Z) : Persist.st * list Z :=
   | _ => (s, [-1])
   end.
 
+(* model 6: rewards (C19) *)
+Fixpoint dec_vals (n : nat) (l : list Z) : list val :=
+  match n, l with
+  | S n', s :: a :: p :: d :: r => {| vid := 0; vstake := s; vaccum := a; vpresent := negb (p =? 0); vdrop := negb (d =? 0) |} :: dec_vals n' r
+  | _, _ => []
+  end.
+Fixpoint dec_stakes (n : nat) (l : list Z) : list stake :=
+  match n, l with
+  | S n', o :: c :: b :: x :: r => {| s_owner := o; s_coin := c; s_bip := b; s_x3 := negb (x =? 0) |} :: dec_stakes n' r
+  | _, _ => []
+  end.
+Definition enc_pays (l : list pay) : list Z :=
+  Z.of_nat (length l) :: flat_map (fun p => [p_role p; p_owner p; p_coin p; p_amount p]) l.
+
+Definition run_rewards_op (op : list Z) : list Z :=
+  match op with
+  | 1 :: reward :: pool :: n :: rest =>
+    let '(vals', rem) := accrue reward pool (dec_vals (Z.to_nat n) rest) in
+    map vaccum vals' ++ [rem]
+  | 2 :: cr :: sr :: period :: tA :: tS :: accum :: vtotal :: comm :: raddr :: n :: rest =>
+    enc_outcome (fun po => [po_more po; po_slashed po] ++ enc_pays (po_pays po))
+                (pay_validator cr sr period tA tS accum vtotal comm raddr (dec_stakes (Z.to_nat n) rest))
+  | _ => [-1]
+  end.
+
 Definition dispatch (model : Z) (ops : list (list Z)) : list (list Z) :=
   match model with
   | 1 => map run_pool_op ops
@@ -179,14 +204,16 @@ Definition dispatch (model : Z) (ops : list (list Z)) : list (list Z) :=
   | 3 => run_states pool3_step pool3_init ops
   | 4 => map run_govern_op ops
   | 5 => run_states appdb_step (empty_disk, empty_mem) ops
+  | 6 => map run_rewards_op ops
   | _ => map (fun _ => [-1]) ops
   end.
 
 (* used by the vm_compute cross-check (work/cases_Cxx.v written by bin/check) *)
+(* -999 in an observed output is a wildcard (a value the harness cannot observe) *)
 Fixpoint zl_eqb (a b : list Z) : bool :=
   match a, b with
   | [], [] => true
-  | x :: a', y :: b' => (x =? y) && zl_eqb a' b'
+  | x :: a', y :: b' => ((x =? y) || (y =? -999)) && zl_eqb a' b'
   | _, _ => false
   end.
 Fixpoint zll_eqb (a b : list (list Z)) : bool :=
